@@ -1,4 +1,6 @@
-(* proofs for C20 over the model of biom/err.py *)
+(* proofs for C20 over the model of biom/err.py.  The definitions they are about are GENERATED
+   from the source on every run (Gen/ErrGen.v); a change of the source that changes the
+   emitted text makes these scripts be re-checked against the new text. *)
 From Coq Require Import List String Bool Arith ZArith Lia.
 From BiomV Require Import Base.Tree Base.ListUtil Base.Dict Model.Err.
 Import ListNotations.
@@ -28,6 +30,9 @@ Proof.
 Qed.
 
 (* ---------- the state setter ---------- *)
+Lemma apply_body_pair s k v : apply_body s (k, v) = dset s k v.
+Proof. reflexivity. Qed.
+
 Lemma validate_raise_stays s l e : fold_left (validate_body s) l (Raise e) = Raise e.
 Proof. induction l as [|kv l IH]; simpl; [reflexivity|exact IH]. Qed.
 
@@ -51,7 +56,7 @@ Lemma apply_keys s l :
   Forall (fun kv => dmem s (fst kv) = true) l -> dkeys (fold_left apply_body l s) = dkeys s.
 Proof.
   revert s. induction l as [|[k v] l IH]; intros s H; simpl; [reflexivity|].
-  inversion H as [|? ? Hk Hl]; subst. simpl in Hk. unfold apply_body at 2. simpl.
+  inversion H as [|? ? Hk Hl]; subst. simpl in Hk. change (apply_body s (k, v)) with (dset s k v).
   rewrite IH.
   - apply dkeys_dset_mem. exact Hk.
   - eapply Forall_impl; [|exact Hl]. intros [k' v'] Hk'. simpl in *.
@@ -161,7 +166,7 @@ Proof.
   revert o1 s2. induction o2 as [|[k v] o2 IH]; intros o1 s2 Hn Hk; simpl.
   - destruct s2; [reflexivity|discriminate].
   - destruct s2 as [|[k' v'] s2]; [discriminate|]. simpl in Hk. injection Hk as Hk1 Hk2. subst k'.
-    unfold apply_body at 2. simpl.
+    rewrite ?apply_body_pair. simpl.
     assert (Hnot : ~ In k (dkeys o1)).
     { unfold dkeys in *. rewrite map_app in Hn. simpl in Hn. apply NoDup_remove_2 in Hn.
       intros Hin. apply Hn. apply in_or_app. left. exact Hin. }
@@ -233,7 +238,8 @@ Lemma exec_block p kw body exc :
   | (s1, Ok old) =>
       let p1 := {| st := s1; calls := calls p |} in
       let '(p2, os) := exec_list p1 body in
-      let s3 := if exc then errstate_exit_exception (st p2) old else errstate_exit_normal (st p2) old in
+      let s3 := if exc then fst (errstate_exit_exception (st p2) old TypeError)
+                else fst (errstate_exit_normal (st p2) old) in
       let p3 := {| st := s3; calls := calls p2 |} in
       (p3, [OEnter true; snap p1] ++ os ++ [OExit; snap p3])
   end.
@@ -254,8 +260,10 @@ Proof.
     pose (p1 := {| st := s1; calls := calls p |}).
     destruct (exec_list_wf body F p1 W1) as [W2 K2].
     cbn zeta. fold p1. destruct (exec_list p1 body) as [p2 os]. simpl in *.
+    assert (Hk : dkeys (st p2) = dkeys (st p)) by congruence.
+    pose proof (restore_exact (st p2) (st p) W Hk) as R.
     unfold errstate_exit_exception, errstate_exit_normal.
-    destruct exc; apply restore_exact; try exact W; congruence.
+    destruct exc; destruct (seterr (st p2) (st p)) as [s3 [o3|e3]]; exact R.
   - simpl. eapply seterr_atomic_lemma. exact E.
 Qed.
 
@@ -264,7 +272,7 @@ Proof.
   induction i as [kw|k cb|k|v args|kw body exc IH] using instr_ind'; intros p W.
   - simpl. destruct (seterr (st p) kw) as [s' r] eqn:E. simpl.
     pose proof (seterr_wf (st p) kw W) as H. rewrite E in H. exact H.
-  - simpl. destruct (seterrcall (calls p) k cb). simpl. split; [exact W|reflexivity].
+  - simpl. destruct (seterrcall (st p) (calls p) k cb). simpl. split; [exact W|reflexivity].
   - simpl. split; [exact W|reflexivity].
   - simpl. split; [exact W|reflexivity].
   - rewrite (block_restores kw body exc IH p W). split; [exact W|reflexivity].
@@ -281,10 +289,10 @@ Theorem errstate_enter_applies s kw s1 old k v :
   wf_state s -> errstate_enter s kw = (s1, Ok old) -> dmem kw "all" = false ->
   NoDup (dkeys kw) -> In (k, v) kw -> dget s1 k = Some v.
 Proof.
-  intros W. unfold errstate_enter, seterr, state_set. intros H Ha Hn Hin. rewrite Ha in H.
+  intros W. unfold errstate_enter, seterr, state_set, state_get. intros H Ha Hn Hin. rewrite Ha in H.
   destruct (fold_left (validate_body s) kw (Ok tt)) as [u|e]; [|discriminate].
   inversion H as [[H1 H2]]. clear H H1 H2 W Ha s s1. revert old Hn Hin. induction kw as [|[k' v'] kw IH]; intros s Hn Hin; [destruct Hin|].
-  simpl. unfold apply_body at 2. simpl. inversion Hn as [|? ? Hk Hn']; subst.
+  simpl. rewrite ?apply_body_pair. simpl. inversion Hn as [|? ? Hk Hn']; subst.
   destruct Hin as [Hin|Hin].
   - inversion Hin; subst. clear IH.
     assert (G : forall l s0, ~ In k (dkeys l) -> dget (fold_left apply_body l s0) k = dget s0 k).
@@ -315,32 +323,53 @@ Definition kinds : list string := ["empty";"obssize";"sampsize";"obsdup";"sampdu
 Definition only_trigger (v : view) (k : string) : Prop :=
   forallb (fun kf => Bool.eqb (snd kf v) (String.eqb (fst kf) k)) registry = true.
 
-Definition expected_event (p : profile) (k : string) : event := handle_error p k.
+(* the reaction configured for kind k: what the handler of k produces (the handler does not look
+   at the offending item, so any item will do) *)
+Definition null_view : view :=
+  {| v_empty := false; v_rows := 0; v_cols := 0; v_oids := []; v_sids := []; v_omd := None; v_smd := None |}.
+Definition expected_event (p : profile) (k : string) : event := handle_error p k null_view.
+
+Lemma handle_error_item p k v : handle_error p k v = expected_event p k.
+Proof. reflexivity. Qed.
 
 Lemma sorted_registry :
   ssorted (dkeys registry) = ["empty";"obsdup";"obsmdsize";"obssize";"sampdup";"sampmdsize";"sampsize"].
 Proof. vm_compute. reflexivity. Qed.
 
-Theorem reaction_honoured_lemma p v k :
-  In k kinds -> only_trigger v k -> errcheck p v [] = Ok (expected_event p k).
+(* ErrorProfile.test: once a reaction has been produced the remaining kinds are skipped *)
+Lemma test_fold_done p v r l : fold_left (test_body p v) l (Ok (Some r)) = Ok (Some r).
+Proof. induction l as [|x l IH]; simpl; [reflexivity|exact IH]. Qed.
+
+Lemma test_loop_honoured p v k :
+  In k kinds -> only_trigger v k -> test_loop p v [] = Ok (expected_event p k).
 Proof.
-  intros Hk T. unfold errcheck. rewrite sorted_registry.
+  intros Hk T. unfold test_loop. cbn [lnull]. rewrite sorted_registry.
   unfold only_trigger, registry in T. cbn [forallb fst snd] in T.
   repeat (apply andb_true_iff in T; destruct T as [?T T]). clear T.
   repeat match goal with H : Bool.eqb _ _ = true |- _ => apply Bool.eqb_prop in H end.
-  unfold expected_event.
   unfold kinds in Hk. simpl in Hk.
   destruct Hk as [E|[E|[E|[E|[E|[E|[E|[]]]]]]]]; subst k;
-    repeat match goal with H : _ v = String.eqb _ _ |- _ => cbn in H end;
-    cbn [test_loop dget registry String.eqb Ascii.eqb Bool.eqb];
-    repeat match goal with H : _ v = _ |- _ => rewrite H; clear H end;
-    unfold is_ignored, handle_error;
-    match goal with
-    | |- context [dget (st p) ?kk] => destruct (dget (st p) kk) as [r|]; [|reflexivity]
-    end;
-    (destruct (String.eqb r "ignore") eqn:Ei;
-     [apply String.eqb_eq in Ei; subst r; reflexivity|reflexivity]).
+    repeat match goal with H : _ v = String.eqb _ _ |- _ => cbn [String.eqb Ascii.eqb Bool.eqb] in H end;
+    repeat (cbn [fold_left test_body dget registry String.eqb Ascii.eqb Bool.eqb];
+            match goal with H : ?t v = _ |- context [?t v] => rewrite H; clear H end);
+    match goal with |- context [String.eqb ?x "ignore"] => destruct (String.eqb x "ignore") eqn:Ei end;
+    repeat (cbn [fold_left test_body dget registry String.eqb Ascii.eqb Bool.eqb];
+            match goal with H : ?t v = _ |- context [?t v] => rewrite H; clear H end);
+    cbn [fold_left test_body dget registry String.eqb Ascii.eqb Bool.eqb];
+    try reflexivity;
+    apply String.eqb_eq in Ei; unfold expected_event, handle_error; rewrite Ei; reflexivity.
 Qed.
+
+(* errcheck re-raises a returned exception instance; in the model that IS the EvRaise event *)
+Lemma errcheck_test_loop p v args : errcheck p v args = test_loop p v args.
+Proof.
+  unfold errcheck. destruct (test_loop p v args) as [r|e]; [|reflexivity].
+  destruct (ev_is_exn r); reflexivity.
+Qed.
+
+Theorem reaction_honoured_lemma p v k :
+  In k kinds -> only_trigger v k -> errcheck p v [] = Ok (expected_event p k).
+Proof. intros Hk T. rewrite errcheck_test_loop. apply test_loop_honoured; assumption. Qed.
 
 (* what the expected event is, reaction by reaction *)
 Lemma expected_event_table p k r :
@@ -350,7 +379,12 @@ Lemma expected_event_table p k r :
     else if String.eqb r "print" then EvPrint k
     else if String.eqb r "call" then EvCall k (match dget (calls p) k with Some c => c | None => 0%Z end)
     else EvNone.
-Proof. intros H. unfold expected_event, handle_error, react. rewrite H. reflexivity. Qed.
+Proof.
+  intros H. unfold expected_event, handle_error. rewrite H. cbv zeta. unfold react.
+  destruct (String.eqb r "ignore") eqn:E1, (String.eqb r "warn") eqn:E2, (String.eqb r "raise") eqn:E3,
+           (String.eqb r "call") eqn:E4, (String.eqb r "print") eqn:E5; try reflexivity;
+    repeat match goal with H : String.eqb r _ = true |- _ => apply String.eqb_eq in H end; congruence.
+Qed.
 
 (* a table whose ids are distinct never triggers a duplicate test, whatever its size *)
 Lemma distinct_NoDup l : NoDup l -> distinct l = l.
@@ -363,6 +397,6 @@ Qed.
 Theorem dup_tests_independent v :
   (NoDup (v_oids v) -> test_obsdup v = false) /\ (NoDup (v_sids v) -> test_sampdup v = false).
 Proof.
-  unfold test_obsdup, test_sampdup. split; intros H; rewrite distinct_NoDup by exact H;
+  unfold test_obsdup, test_sampdup. split; intros H; cbv zeta; rewrite distinct_NoDup by exact H;
     rewrite Nat.eqb_refl; reflexivity.
 Qed.
